@@ -508,6 +508,21 @@ def main(rec):
                 lib = libs.build("i%s%d%s" % ("x" if lang == "c++" else "c", bi // per, "f" if cfi else ""), lang, inst[bi:bi + per],
                                  ("c", "fortran"), options={"F_CFI": cfi})
                 cases.append({"lib": lib})
+    # fortran_generic entries that differ in rank (every new scalar / array pattern gets a bind(C) interface of its own)
+    # and, in the same entry, in the type of a by-value scalar: the extra interfaces still bind to the one C function
+    from ..libgen.libs import F, P
+    def _gen_rank(n, T):
+        return [F(n, "void", [P("factor", "val", "double"), P("values", "ptr_inout", "int"), P("nvalues", "val", "int")],
+                  generic=[{"decl": "(double factor, int *values)", "function_suffix": "_scalar"},
+                           {"decl": "(float factor, int *values +rank(1))", "function_suffix": "_float_array"},
+                           {"decl": "(double factor, int *values +rank(1))", "function_suffix": "_array"}]),
+                F(n + "b", "int", [P("scale", "val", "long"), P("data", "ptr_in", "double")],
+                  generic=[{"decl": "(int scale, const double *data +rank(2))", "function_suffix": "_i2"},
+                           {"decl": "(long scale, const double *data)", "function_suffix": "_l0"},
+                           {"decl": "(long scale, const double *data +rank(1))", "function_suffix": "_l1"}])]
+    gshape = dict(id="generic_rank_scalar", build=_gen_rank, types=None, langs=("c", "c++"), wraps=("c", "fortran"), doc="generic.yaml AssignValues / SavePointer")
+    for lang in ("c", "c++"):
+        cases.append({"lib": libs.build("igr%s" % ("x" if lang == "c++" else "c"), lang, [(gshape, None)], ("c", "fortran"))})
     if thorough:
         for k in range(40):
             lang = r.choice(["c", "c++"])
